@@ -239,24 +239,25 @@ func gid() uint64 {
 
 // replica is one subscription stream being driven and observed.
 type replica struct {
-	name       string
-	o          ro.Observable[any]
-	ctl        *Ctl
-	ctlBase    int // index of this replica's first subscription inside ctl.subs
-	ctlStride  int // replicas sharing one Ctl subscribe alternately: my k-th subscription is subs[ctlBase+k*ctlStride]
-	nsub       int
-	share      int // number of replicas sharing ctl (expected counters are multiplied / offset accordingly)
-	mu         sync.Mutex
-	log        []got
-	pos        int
-	sub        ro.Subscription
-	terminated bool
-	unsubbed   bool
-	expAll     []string
-	gotAll     []string
-	firstVal   int
-	me         uint64
-	checkGid   bool
+	name        string
+	o           ro.Observable[any]
+	ctl         *Ctl
+	ctlBase     int // index of this replica's first subscription inside ctl.subs
+	ctlStride   int // replicas sharing one Ctl subscribe alternately: my k-th subscription is subs[ctlBase+k*ctlStride]
+	nsub        int
+	share       int // number of replicas sharing ctl (expected counters are multiplied / offset accordingly)
+	mu          sync.Mutex
+	log         []got
+	pos         int
+	sub         ro.Subscription
+	terminated  bool
+	unsubbed    bool
+	expAll      []string
+	gotAll      []string
+	firstVal    int
+	me          uint64
+	checkGid    bool
+	leaveGroups bool // higher-order outputs: unsubscribe from every inner observable after its first value
 }
 
 func (r *replica) observer() ro.Observer[any] {
@@ -279,11 +280,20 @@ func (r *replica) observer() ro.Observer[any] {
 				recv("N", fmt.Sprint(1000+j), ctx)
 				// the window / group is subscribed with a context of its own (subscription marker only): what it delivers must carry the
 				// context of the source notification, not the context of whoever subscribed it (C09: stored values keep their context)
-				w.SubscribeWithContext(context.WithValue(context.Background(), rec.KeySub, true), ro.NewObserverWithContext(
-					func(ctx context.Context, x any) { recv("I", fmt.Sprint(100*j+x.(int)), ctx) },
+				var me ro.Subscriber[any]
+				first := true
+				me = ro.NewSubscriber(ro.NewObserverWithContext(
+					func(ctx context.Context, x any) {
+						recv("I", fmt.Sprint(100*j+x.(int)), ctx)
+						if r.leaveGroups && first {
+							first = false
+							me.Unsubscribe() // the observer leaves the group after its first value
+						}
+					},
 					func(ctx context.Context, err error) { recv("IE", fmt.Sprint(j), ctx) },
 					func(ctx context.Context) { recv("IC", fmt.Sprint(j), ctx) },
 				))
+				w.SubscribeWithContext(context.WithValue(context.Background(), rec.KeySub, true), me)
 				return
 			}
 			recv("N", cat.Canon(v), ctx)
